@@ -62,7 +62,8 @@ def respOf (ok : Text.V → Bool) (cls : String) (text : List Char) : Resp :=
 def patchOf (cls fmt : String) (text : List Char) : Patch :=
   let byClass : Patch :=
     if cls == "valid" then .ops true else if cls == "applyerr" then .ops false else .parseErr
-  if fmt == "json" then Text.patchOfText (cls == "deleted") byClass text
+  -- `pf=json`: the generator's texts that are not JSON are not YAML either (it filters them)
+  if fmt == "json" then Text.patchOfText (cls == "deleted") byClass .parseErr text
   else if cls == "deleted" then .unreadable
   else if text.isEmpty then .empty
   else byClass
